@@ -167,6 +167,7 @@ def build_reference(repo: str) -> dict:
         inline_test_temps(tree)
         normalise_if_polarity(tree)
         flatten_else_after_terminator(tree)
+        merge_nested_ifs(tree)
         for q, fn in top_level_functions(tree):
             order = renamable_names(fn)
             if order:
@@ -427,6 +428,31 @@ def flatten_else_after_terminator(tree: ast.Module) -> int:
     return v.n
 
 
+class _NestedIfMerger(ast.NodeTransformer):
+    """`if A:` / `if B: body` (neither with an else, the inner `if` the only statement) -> `if A and B: body`."""
+
+    def __init__(self):
+        self.n = 0
+
+    def visit_If(self, node):
+        self.generic_visit(node)
+        while (not node.orelse and len(node.body) == 1 and isinstance(node.body[0], ast.If) and not node.body[0].orelse
+               and not any(isinstance(x, ast.NamedExpr) for x in ast.walk(node.test))):
+            inner = node.body[0]
+            left = node.test.values if isinstance(node.test, ast.BoolOp) and isinstance(node.test.op, ast.And) else [node.test]
+            right = inner.test.values if isinstance(inner.test, ast.BoolOp) and isinstance(inner.test.op, ast.And) else [inner.test]
+            node.test = ast.copy_location(ast.BoolOp(op=ast.And(), values=list(left) + list(right)), node.test)
+            node.body = inner.body
+            self.n += 1
+        return node
+
+
+def merge_nested_ifs(tree: ast.Module) -> int:
+    v = _NestedIfMerger()
+    v.visit(tree)
+    return v.n
+
+
 class _LocalAnnotationStripper(ast.NodeTransformer):
     def __init__(self):
         self.depth = 0
@@ -468,6 +494,7 @@ def canonicalise_module(modname: str, tree: ast.Module) -> int:
     inline_test_temps(tree)
     normalise_if_polarity(tree)
     flatten_else_after_terminator(tree)
+    merge_nested_ifs(tree)
     ref = load_reference()
     n = 0
     for q, fn in top_level_functions(tree):
